@@ -30,7 +30,7 @@ fn aggregate_dyn(nb: usize, backend: &str, buckets: &[u32], q1: u32, q2: u32, q3
 }
 
 #[cfg(fast_tlsh_verif)]
-fn agg_backends(nb: usize) -> Vec<&'static str> {
+pub fn agg_backends(nb: usize) -> Vec<&'static str> {
     let b = vec![1u32; 256];
     tlsh::verif::bucket_aggregation::BACKENDS.iter().copied().filter(|be| aggregate_dyn(nb, be, &b, 0, 0, 0).is_some()).collect()
 }
